@@ -62,6 +62,10 @@ if GLIB:
 # ---- C20 GLib branch (end)
 
 CLS = {ExceptionSignal: 0, RenderScreenSignal: 1, CloseScreenSignal: 2, InputReceivedSignal: 3, InputReadySignal: 4}
+# the application's own signal classes (ScreenSem.CLS_CUSTOM c = 5 + c)
+CUSTOM = [type("Custom%d" % c, (AbstractSignal,), {}) for c in range(8)]
+for _c, _k in enumerate(CUSTOM):
+    CLS[_k] = 5 + _c
 HEIGHT = 6
 STEP_LIMIT = 600
 
@@ -164,9 +168,11 @@ def run_session(case):
             hid = hid_for(callback)
             c = CLS.get(signal, 99)
 
+            dval = getattr(callback, "custom_scr", 0)        # a screen's own callback is registered with data = the screen
+
             def wrapped(sig, d, callback=callback, hid=hid):
                 sid = sid_of[id(sig)]
-                log.append([4, hid, sid, 0])
+                log.append([4, hid, sid, dval])
                 st["steps"] += 1
                 if st["steps"] > STEP_LIMIT:
                     raise StepLimit()
@@ -182,7 +188,7 @@ def run_session(case):
                     log.append([5, hid, sid, [2]]); raise
                 log.append([5, hid, sid, []])
             super().register_signal_handler(signal, wrapped, data)
-            log.append([21, c, hid, 0])
+            log.append([21, c, hid, dval])
 
         def register_signal_source(self, signal_source):
             super().register_signal_source(signal_source)
@@ -251,6 +257,8 @@ def run_session(case):
             return 2
         if isinstance(owner, IH.InputHandler):
             return 10 + ih_id[id(owner)]
+        if getattr(callback, "custom_k", None) is not None:
+            return 3 + callback.custom_k                      # ScreenSem.H_CUSTOM k
         return 999
 
     # ---- C20 GLib branch (begin): the same observation points on GLibEventLoop; "queue id" = level id (creation order).
@@ -298,9 +306,11 @@ def run_session(case):
                 hid = hid_for(callback)
                 c = CLS.get(signal, 99)
 
+                dval = getattr(callback, "custom_scr", 0)
+
                 def wrapped(sig, d, callback=callback, hid=hid):
                     sid = sid_of[id(sig)]
-                    log.append([4, hid, sid, 0])
+                    log.append([4, hid, sid, dval])
                     st["steps"] += 1
                     if st["steps"] > STEP_LIMIT:
                         raise StepLimit()
@@ -316,7 +326,7 @@ def run_session(case):
                         log.append([5, hid, sid, [2]]); raise
                     log.append([5, hid, sid, []])
                 super().register_signal_handler(signal, wrapped, data)
-                log.append([21, c, hid, 0])
+                log.append([21, c, hid, dval])
 
             def register_signal_source(self, signal_source):
                 super().register_signal_source(signal_source)
@@ -654,6 +664,22 @@ def run_session(case):
                     h.wait_on_input()
                     v = h.value
                     U(20, [c[1], ih_id[id(h)], 1 if h.input_successful() else 0, 0 if v is None else 1], v or "")
+            elif op == 22:
+                # self.connect(Custom_c, callback_k): SignalHandler.connect -> register_signal_handler(signal, callback, None)
+                scr, k = screens[me], c[2]
+
+                def cb(signal, data, scr=scr, k=k):
+                    U(21, [k, scr.i, 1 + scr_id[id(signal.source)] if id(signal.source) in scr_id else 0])
+                    custom = scr.spec[12] if len(scr.spec) > 12 else []
+                    do_cmds(scr, custom[k] if k < len(custom) else [], 0)
+                cb.custom_k = k; cb.custom_scr = me
+                scr.connect(CUSTOM[c[1]], cb)
+            elif op == 23:
+                # self.emit(self.create_signal(Custom_c, prio)) / self.create_and_emit(Custom_c) when prio == 0
+                if c[2] == 0 and me % 2 == 0:
+                    screens[me].create_and_emit(CUSTOM[c[1]])
+                else:
+                    screens[me].emit(screens[me].create_signal(CUSTOM[c[1]], c[2]))
             else:
                 raise AssertionError(op)
 
